@@ -159,6 +159,20 @@ def build_installation(ctx, rng, root, shape="normal"):
             inst.bytes += len(b)
             open(os.path.join(rd, sq.index_filename(cid, exp, chunk, inst.platform, kind)), "wb").write(b)
             inst.index.setdefault((exp, cat), {}).setdefault(chunk, {})[kind] = table
+        if shape == "normal" and rng.random() < 0.25:
+            # a file with an index name that holds no index (empty, cut short, foreign bytes) contains no path; the other index files of
+            # the category - the sibling of the same chunk, the other chunks - are still there to be searched
+            stray = []
+            if len(kinds) == 1:
+                stray.append(sq.index_filename(cid, exp, chunk, inst.platform, 3 - kinds[0]))
+            oc = next((c for c in range(10) if (exp, cat, c) not in groups and c != chunk), None)
+            if oc is not None and not any((exp, cat, c2) in groups for c2 in [oc]):
+                stray.append(sq.index_filename(cid, exp, oc, inst.platform, rng.choice([1, 2])))
+                groups.add((exp, cat, oc))
+            for fn in stray:
+                if not os.path.exists(os.path.join(rd, fn)):
+                    open(os.path.join(rd, fn), "wb").write(rng.choice([b"", b"SqPack\0\0", rng.randbytes(700), b[:1500]]))
+                    inst.stray = getattr(inst, "stray", 0) + 1
     return inst
 
 
@@ -407,6 +421,8 @@ def run_installation(ctx, rng, inst, root, nq, ino):
                 seen.add((exp, cat, chunk, kind))
                 qs.append((p, "stored"))
     ctx.stats.classes["shape:" + inst.shape] += 1
+    if getattr(inst, "stray", 0):
+        ctx.stats.classes["stray-unparsable-index-files"] += inst.stray
     hist = [(rng.choice(["exists", "find_offset", "extract"]), p, cls) for p, cls in qs]
     # repeat some queries later in the history (hit after miss, miss after hit, warm cache)
     hist += [rng.choice(hist) for _ in range(len(hist) // 4)]
